@@ -341,3 +341,21 @@ s("C14", "revert-fix-kf4", DD + "cdbd.py", "        if len(np.shape(X)) > 1 and 
 s("C14", "batch-y-column-test-dropped", DET, "        if ary.shape[1] != 1:\n            raise ValueError(\"y input for detectors should contain only one column.\")\n", "", "GRD")
 b(["C14", "C15"], "validate-x-temp", DET, "            ary = copy.copy(X)\n            ary = np.array(ary)\n            if len(ary.shape) <= 1:\n                # only one", "            ary = np.array(copy.copy(X))\n            if len(ary.shape) <= 1:\n                # only one")
 b(["C14"], "rowcount-flip", DET, "        if ary.shape[0] != 1:\n            raise ValueError(\n                \"Input for streaming", "        if 1 != ary.shape[0]:\n            raise ValueError(\n                \"Input for streaming")
+
+# ---------------------------------------------------------------- C15
+INJ = IN + "injector.py"
+LM = IN + "label_manipulation.py"
+s("C15", "revert-fix8", DET, "            ary = X.values.copy()\n        else:\n            ary = copy.copy(X)\n            ary = np.array(ary)\n            if len(ary.shape) <= 1:\n                # only one", "            ary = X.values\n        else:\n            ary = copy.copy(X)\n            ary = np.array(ary)\n            if len(ary.shape) <= 1:\n                # only one", "ESC")
+s("C15", "revert-fix7", LM, "        class_probabilities = dict(class_probabilities)\n", "", "ESC-mutate")
+s("C15", "preprocess-asarray", INJ, "        copy = np.copy(data)", "        copy = np.asarray(data)", "ESC")
+s("C15", "hdm-setref-stores-raw", HDMF, "        X, _, _ = super()._validate_input(X, None, None)\n        X = pd.DataFrame(\n            X, columns=self._input_cols\n        )  # TODO: subsequent operations expect dataframes, not numpy arrays\n        # Initialize attributes\n        self.reference = copy.deepcopy(X)", "        raw = X\n        X, _, _ = super()._validate_input(X, None, None)\n        # Initialize attributes\n        self.reference = raw", "ESC-store")
+s("C15", "nndvi-store-before-validate", NV, "        X, _, _ = super()._validate_input(X, None, None)\n        self.reference_batch = X", "        self.reference_batch = X\n        X, _, _ = super()._validate_input(X, None, None)", "ESC-store")
+s("C15", "validate-asarray", DET, "            ary = copy.copy(X)\n            ary = np.array(ary)\n            if len(ary.shape) <= 1:\n                # Batch size", "            ary = np.asarray(X)\n            if len(ary.shape) <= 1:\n                # Batch size", "ESC")
+s("C15", "labelswap-through-data", LM, "        ret[class_1_idx, target_col] = class_2\n", "        data[class_1_idx, target_col] = class_2\n", "ESC-mutate")
+s("C15", "injector-returns-input", IN + "feature_manipulation.py", "        # swap columns\n        ret[from_index:to_index, [col_1, col_2]] = ret[\n            from_index:to_index, [col_2, col_1]\n        ]\n\n        # handle type and return\n        ret = self._postprocess(ret)\n        return ret", "        if from_index == to_index:\n            return data\n        # swap columns\n        ret[from_index:to_index, [col_1, col_2]] = ret[\n            from_index:to_index, [col_2, col_1]\n        ]\n\n        # handle type and return\n        ret = self._postprocess(ret)\n        return ret", "ESC-return")
+s("C15", "cusum-stream-raw", CD + "cusum.py", "        X, _, _ = super()._validate_input(X, None, None)\n        if len(X.shape) > 1 and X.shape[1] != 1:\n            raise ValueError(\"CUSUM should only be used to monitor 1 variable.\")\n        super().update(X, None, None)\n        self._stream.append(X)", "        raw = X\n        X, _, _ = super()._validate_input(X, None, None)\n        if len(X.shape) > 1 and X.shape[1] != 1:\n            raise ValueError(\"CUSUM should only be used to monitor 1 variable.\")\n        super().update(X, None, None)\n        self._stream.append(raw)", "ESC-store")
+s("C15", "columns-not-reset", INJ, "        if isinstance(data, np.ndarray):\n            self._columns = None\n            column_idxs = columns", "        if isinstance(data, np.ndarray):\n            column_idxs = columns", "LIVE")
+s("C15", "validate-y-asarray", DET, "        ary = np.array(y).ravel()\n        if ary.shape != (1,):", "        ary = np.asarray(y).ravel()\n        if ary.shape != (1,):", "ESC")
+s2("C15", "kdq-view-chain", DET, [("            ary = copy.copy(X)\n            ary = np.array(ary)\n            if len(ary.shape) <= 1:\n                # only one", "            ary = np.asarray(X)\n            if len(ary.shape) <= 1:\n                # only one")], "ESC")
+b(["C15"], "hdm-no-deepcopy", HDMF, "        self.reference = copy.deepcopy(X)\n        self.reset()", "        self.reference = X\n        self.reset()")
+b(["C15", "C20"], "preprocess-array-copy", INJ, "        copy = np.copy(data)", "        copy = np.array(data, copy=True)")
